@@ -27,7 +27,7 @@ from pyvc.pool import collect, run_jobs
 from pyvc.report import A_FP, VENV_PY
 from pyvc.values import Obj, Opaque, SArr, SBool, SInt, SOpt, SReal, to_z3, wrap
 
-LEVEL = "proof"
+LEVEL = "other"
 T = "iodata.iodata.IOData"
 
 PER_ATOM = {  # field -> (dtype, trailing shape)
